@@ -232,10 +232,17 @@ impl Session {
         let dir = if home.is_none() { Some(Scratch::new(tag)) } else { None };
         opts.user_home = home.unwrap_or_else(|| dir.as_ref().unwrap().path().to_path_buf());
         std::fs::create_dir_all(opts.user_dir()).map_err(|e| e.to_string())?;
-        if let Some(m) = uac { std::fs::write(opts.user_dir().join("autocorrect.json"), map_json(m)).map_err(|e| e.to_string())?; }
+        // the user's auto-correct file gets an explicit modification time; later edits are dated relative to it
+        let base = SystemTime::now();
+        if let Some(m) = uac {
+            let path = opts.user_dir().join("autocorrect.json");
+            std::fs::write(&path, map_json(m)).map_err(|e| e.to_string())?;
+            if let Ok(f) = std::fs::File::options().write(true).open(&path) { let _ = f.set_modified(base); }
+        }
         if let Some(m) = sels { std::fs::write(opts.user_dir().join("phonetic-candidate-selection.json"), map_json(m)).map_err(|e| e.to_string())?; }
         let home = opts.user_home.clone();
         let mut s = Session::create_in(w, opts, tag, home, json!({"user_autocorrect": uac.map(|m| map_json(m)), "selections": sels.map(|m| map_json(m))}))?;
+        s.t0 = base;
         s.dir = dir;
         Ok(s)
     }
